@@ -144,6 +144,20 @@ def dup_instances(ad):
     return written, read
 
 
+def long_identifiers(ad):
+    """identifiers at the length limit: 255 characters, and 256 with the leading & (names that start with a digit)."""
+    import copy
+    a = copy.deepcopy(ad)
+    for lib in a["libs"]:
+        for d in lib["defs"]:
+            if d.get("insts"):
+                ref = d["insts"][0]["ref"]
+                d["insts"] = d["insts"] + [{"name": "w" * 255, "ref": ref}, {"name": "9" + "z" * 254, "id": "&9" + "z" * 254, "ref": ref}]
+                d["nets"] = (d.get("nets") or []) + [{"name": "8" + "n" * 254, "id": "&8" + "n" * 254, "bits": [[]]}, {"name": "m" * 255, "bits": [[]]}]
+        lib["defs"] = lib["defs"] + [{"name": "7" + "c" * 254, "id": "&7" + "c" * 254, "ports": [], "insts": [], "nets": []}]
+    return a
+
+
 def edif_option_product(tier):
     out = []
     for refcase in ("decl", "upper", "lower"):
@@ -156,4 +170,6 @@ def edif_option_product(tier):
                         if not comments and dc == "decl":
                             out.append({"refcase": refcase, "always_rename": always, "libref_same": lr, "comments": comments, "design_case": dc, "split_nets": True})
                             out.append({"refcase": refcase, "always_rename": always, "libref_same": lr, "comments": comments, "design_case": dc, "dup_instances": True})
+                            if lr == "present":
+                                out.append({"refcase": refcase, "always_rename": always, "libref_same": lr, "comments": comments, "design_case": dc, "long_ids": True})
     return out
